@@ -61,6 +61,10 @@ def configs(tier):
     for item, e in zip([(1, 0, 0), (1, 1, 1), (0, 0, 0)], EX):
         cfgs.append(S.Transform(depth=1, W=2, fail_item=item, fail_exc=e))
     # abrupt death of a worker (SIGKILL / OOM killer) while it handles an item
+    # an error object that cannot be pickled (a class local to the callback's module function, holding a lock)
+    cfgs.append(S.VisitLeaves(kind="generic", depth=1, W=2, fail_item=(1, 0, 1), fail_exc="unpicklable"))
+    cfgs.append(S.Walk(kind="filtered", depth=2, W=2, accepted=WALK3, fail_item=(1, 1, 1), fail_exc="unpicklable"))
+    cfgs.append(S.Transform(depth=1, W=2, fail_item=(1, 1, 0), fail_exc="unpicklable"))
     cfgs.append(S.VisitLeaves(kind="generic", depth=1, W=2, fail_item=(1, 1, 0), fail_exc="kill"))
     cfgs.append(S.Transform(depth=1, W=2, fail_item=(1, 0, 1), fail_exc="kill"))
     cfgs.append(S.Walk(kind="filtered", depth=2, W=2, accepted=WALK3, fail_item=(1, 1, 1), fail_exc="kill"))
